@@ -3,13 +3,16 @@
 //!
 //! The multi-threaded operations of [`AdjacencyList`](crate::AdjacencyList)
 //! and [`AdjacencyMap`](crate::AdjacencyMap) import the names below at
-//! function scope when the guard is on. That puts every source of
-//! nondeterminism these operations touch behind one seam:
+//! function scope when the guard is on (all of them in every such function, so
+//! that a rewrite that starts using another primitive stays behind the seam).
+//! That puts every source of nondeterminism these operations touch behind one
+//! seam:
 //!
 //! * [`available_parallelism`] answers what the simulator configured for the
 //!   calling OS thread (a CPU count, or an error), and falls back to `std`
 //!   when nothing was configured.
-//! * [`spawn`], [`scope`], [`Mutex`], [`AtomicBool`] are `shuttle`'s with
+//! * [`spawn`], [`scope`], [`Mutex`], [`AtomicBool`] and the other re-exported
+//!   synchronisation primitives are `shuttle`'s with
 //!   `--cfg graaf_verif_shuttle` (a scheduler the simulator owns decides every
 //!   interleaving) and `std`'s otherwise (Miri decides them).
 
@@ -27,8 +30,13 @@ pub use shuttle::{
         atomic::{
             self,
             AtomicBool,
+            AtomicUsize,
         },
+        mpsc,
+        Barrier,
+        Condvar,
         Mutex,
+        RwLock,
     },
     thread::{
         scope,
@@ -42,8 +50,13 @@ pub use std::{
         atomic::{
             self,
             AtomicBool,
+            AtomicUsize,
         },
+        mpsc,
+        Barrier,
+        Condvar,
         Mutex,
+        RwLock,
     },
     thread::{
         scope,
@@ -53,6 +66,29 @@ pub use std::{
 
 /// Stand-in for `std::thread`, for call sites written `thread::spawn`.
 pub mod thread {
+    #[cfg(graaf_verif_shuttle)]
+    pub use shuttle::thread::{
+        current,
+        park,
+        sleep,
+        yield_now,
+        Builder,
+        JoinHandle,
+        Scope,
+        ScopedJoinHandle,
+    };
+    #[cfg(not(graaf_verif_shuttle))]
+    pub use std::thread::{
+        current,
+        park,
+        sleep,
+        yield_now,
+        Builder,
+        JoinHandle,
+        Scope,
+        ScopedJoinHandle,
+    };
+
     pub use super::{
         available_parallelism,
         scope,
